@@ -214,9 +214,31 @@ package vecengine
 //@   requires vi.callback.NewHighestBefore != nil && vi.callback.NewLowestAfter != nil && vi.callback.GetHighestBefore != nil && vi.callback.GetLowestAfter != nil && vi.callback.SetHighestBefore != nil && vi.callback.SetLowestAfter != nil && vi.crit != nil && vi.getEvent != nil
 //@   requires e.SelfParent() != nil ==> gBranchOf[deref(e.SelfParent())] < len(vi.bi.BranchIDCreatorIdxs)
 //@   requires e.Seq() >= 1 && e.Seq() <= 2147483646
-//@   modifies vi.bi.BranchIDLastSeq, vi.bi.BranchIDLastSeq[*], vi.bi.BranchIDCreatorIdxs, vi.bi.BranchIDCreatorIdxs[*], vi.bi.BranchIDByCreators[*], allelems(idx.Validator), gHBI[*], gLAI[*], gBranchOf[*], allelems(byte), allcells("vecfc.LowestAfterSeq")
-//@   at call vecengine.Engine).DfsSubgraph[1] requires [self] hbFork(hv(myVecs.before), meBranchID) || hbSeq(hv(myVecs.before), meBranchID) == e.Seq()
-//@   at call vecengine.Engine).DfsSubgraph[1] requires [uniform] len(vi.bi.BranchIDCreatorIdxs) > len(vi.validators.values) ==> forall(c, 0, len(vi.validators.values), uniform(vi.bi, hv(myVecs.before), c))
-//@   at call vecengine.Engine).DfsSubgraph[1] requires [detected] len(vi.bi.BranchIDCreatorIdxs) > len(vi.validators.values) ==> forall(c, 0, len(vi.validators.values), !hbFork(hv(myVecs.before), c) ==> nooverlap(vi.bi, hv(myVecs.before), c))
-//@   ensures  [stored] result1 == nil ==> gHBI[e.ID()] == result0.before && gLAI[e.ID()] == result0.after && isHB(result0.before)
-//@   ensures  [missing] exists(i, 0, len(e.Parents()), old(gHBI[e.Parents()[i]]) == nil) ==> result1 != nil && gHBI[e.ID()] == old(gHBI[e.ID()])
+//@   requires [stored] forall(i, 0, len(e.Parents()), gHBI[e.Parents()[i]] != nil ==> isHB(gHBI[e.Parents()[i]]) && allocd(unbox(gHBI[e.Parents()[i]], "*vecfc.HighestBeforeSeq")) && allocd(hv(gHBI[e.Parents()[i]])))
+//@   modifies vi.bi.BranchIDLastSeq, vi.bi.BranchIDLastSeq[*], vi.bi.BranchIDCreatorIdxs, vi.bi.BranchIDCreatorIdxs[*], vi.bi.BranchIDByCreators[*], allelems(idx.Validator), allelems(idx.Event), gHBI[*], gLAI[*], gBranchOf[*], allelems(byte), allcells("vecfc.LowestAfterSeq")
+//@   at call vecengine.Engine).DfsSubgraph[1] requires [self] hbFork(hv(myVecs.before), meBranchID) || hbSeq(hv(myVecs.before), meBranchID) >= e.Seq()
+//@   ensures  [stored] result1 == nil ==> gHBI[e.ID()] == result0.before && gLAI[e.ID()] == result0.after && gBranchOf[e.ID()] < len(vi.bi.BranchIDCreatorIdxs)
+//@   ensures  [missing] result1 != nil ==> gHBI[e.ID()] == old(gHBI[e.ID()]) && gLAI[e.ID()] == old(gLAI[e.ID()])
+//@   loop 1 modifies parentsVecs[*], parentsBranchIDs[*]
+//@   loop 1 invariant 0 <= _k && _k <= len(e.Parents()) && len(parentsVecs) == len(e.Parents()) && len(parentsBranchIDs) == len(e.Parents()) && arrfresh(parentsVecs, old(_alloc)) && arrfresh(parentsBranchIDs, old(_alloc)) && arrof(parentsVecs) != arrof(parentsBranchIDs)
+//@   loop 1 invariant forall(i, 0, _k, parentsVecs[i] == gHBI[e.Parents()[i]] && parentsVecs[i] != nil)
+//@   loop 1 invariant [hb] isHB(myVecs.before) && arrfresh(hv(myVecs.before), old(_alloc)) && fresh(unbox(myVecs.before, "*vecfc.HighestBeforeSeq"))
+//@   loop 1 invariant [biwf] biwf(vi.bi, len(vi.validators.values))
+//@   loop 1 invariant [bilists] bilists(vi.bi, len(vi.validators.values))
+//@   loop 1 invariant [me] meBranchID < len(vi.bi.BranchIDCreatorIdxs)
+//@   loop 2 modifies deref(unbox(myVecs.before, "*vecfc.HighestBeforeSeq")), deref(unbox(myVecs.before, "*vecfc.HighestBeforeSeq"))[*]
+//@   loop 2 invariant arrof(hv(myVecs.before)) == arrof(atentry(hv(myVecs.before))) || arrfresh(hv(myVecs.before), _loopalloc)
+//@   loop 2 invariant 0 <= _k && _k <= len(parentsVecs) && isHB(myVecs.before) && arrfresh(hv(myVecs.before), old(_alloc)) && fresh(unbox(myVecs.before, "*vecfc.HighestBeforeSeq"))
+//@   loop 2 invariant [self] hbFork(hv(myVecs.before), meBranchID) || hbSeq(hv(myVecs.before), meBranchID) >= e.Seq()
+//@   loop 2 invariant forall(i, 0, len(parentsVecs), parentsVecs[i] != nil && isHB(parentsVecs[i]) && unbox(parentsVecs[i], "*vecfc.HighestBeforeSeq") != unbox(myVecs.before, "*vecfc.HighestBeforeSeq") && arrof(hv(parentsVecs[i])) != arrof(hv(myVecs.before)) && !arrfresh(hv(parentsVecs[i]), old(_alloc)))
+//@   loop 3 modifies deref(unbox(myVecs.before, "*vecfc.HighestBeforeSeq")), deref(unbox(myVecs.before, "*vecfc.HighestBeforeSeq"))[*]
+//@   loop 3 invariant arrof(hv(myVecs.before)) == arrof(atentry(hv(myVecs.before))) || arrfresh(hv(myVecs.before), _loopalloc)
+//@   loop 3 invariant 0 <= n && n <= len(vi.validators.values) && isHB(myVecs.before) && arrfresh(hv(myVecs.before), old(_alloc)) && fresh(unbox(myVecs.before, "*vecfc.HighestBeforeSeq"))
+//@   loop 3 invariant [self] hbFork(hv(myVecs.before), meBranchID) || hbSeq(hv(myVecs.before), meBranchID) >= e.Seq()
+//@   loop 4 invariant 0 <= _k && _k <= len(_range) && isHB(myVecs.before)
+//@   loop 5 modifies deref(unbox(myVecs.before, "*vecfc.HighestBeforeSeq")), deref(unbox(myVecs.before, "*vecfc.HighestBeforeSeq"))[*]
+//@   loop 5 invariant arrof(hv(myVecs.before)) == arrof(atentry(hv(myVecs.before))) || arrfresh(hv(myVecs.before), _loopalloc)
+//@   loop 5 invariant 0 <= n && n <= len(vi.validators.values) && isHB(myVecs.before) && arrfresh(hv(myVecs.before), old(_alloc)) && fresh(unbox(myVecs.before, "*vecfc.HighestBeforeSeq"))
+//@   loop 5 invariant [self] hbFork(hv(myVecs.before), meBranchID) || hbSeq(hv(myVecs.before), meBranchID) >= e.Seq()
+//@   loop 6 invariant 0 <= _k && _k <= len(_range) && isHB(myVecs.before)
+//@   loop 7 invariant 0 <= _k && _k <= len(_range) && isHB(myVecs.before)
